@@ -391,6 +391,15 @@ impl RealVm {
     }
 }
 
+/// Observation for messages: a value that looks like an address is not printed (it differs
+/// from run to run, and replays must print the same text).
+fn show(o: &Obs) -> String {
+    match o {
+        Obs::Val(v) if *v >= 1 << 40 && *v < 0xffff_0000_0000_0000 => "Val(<address-like value>)".into(),
+        x => format!("{x:?}"),
+    }
+}
+
 fn matches(exp: &Exp, obs: &Obs) -> Option<&'static str> {
     match (exp, obs) {
         (_, Obs::Panic(_)) => Some("panic"),
@@ -488,7 +497,7 @@ fn probe(m: &ApiModel, n: &St, real: &mut RealVm, via: Act) {
         if let Some(sym) = matches(&e, &o) {
             m.findings.lock().unwrap().push(Finding {
                 sig: format!("api/after-{}/{name}:{sym}", act_name(via)),
-                detail: format!("after {:?} the VM is in abstract state {{prog {:?}, verifier {:?}, helper {:?}, jit {:?}, cl {:?}, offsets #{}}}; probe {name}: expected {e:?}, observed {o:?}", n.hist, n.prog, n.verifier, n.helper, n.jit, n.cl, n.offs),
+                detail: format!("after {:?} the VM is in abstract state {{prog {:?}, verifier {:?}, helper {:?}, jit {:?}, cl {:?}, offsets #{}}}; probe {name}: expected {e:?}, observed {}", n.hist, n.prog, n.verifier, n.helper, n.jit, n.cl, n.offs, show(&o)),
                 hist: n.hist.clone(),
             });
         }
@@ -579,7 +588,7 @@ impl Model for ApiModel {
         if let Some(sym) = matches(&exp, &obs) {
             self.findings.lock().unwrap().push(Finding {
                 sig: format!("api/{}/{sym}", act_name(a)),
-                detail: format!("history {:?}: the model expects {exp:?}, the implementation gave {obs:?}", n.hist),
+                detail: format!("history {:?}: the model expects {exp:?}, the implementation gave {}", n.hist, show(&obs)),
                 hist: n.hist.clone(),
             });
         }
@@ -772,7 +781,7 @@ pub fn replay(v: &Value) -> Vec<String> {
         let (mut real, obs) = rebuild(&hist[..=n]);
         let obs = obs.unwrap();
         if let Some(sym) = matches(&exp, &obs) {
-            out.push(format!("api/{}/{sym}: step {n} {a:?}: expected {exp:?}, observed {obs:?}", act_name(*a)));
+            out.push(format!("api/{}/{sym}: step {n} {a:?}: expected {exp:?}, observed {}", act_name(*a), show(&obs)));
         }
         let mut nn = nx.clone();
         nn.hist = hist[..=n].to_vec();
